@@ -373,6 +373,10 @@ pub fn exec_op(st: &mut Store, dir: &str, t: &[&str]) -> (String, bool) {
                     "panic".to_string()
                 }
             },
+            "H" => {
+                let v = st.rl.verif_cache_resident();
+                format!("resident {}", v.iter().map(|(id, n)| format!("{}:{}:{}", id.0, id.1, n)).collect::<Vec<_>>().join(","))
+            }
             "I" => {
                 st.rl.wait_worker_idle();
                 "unit".to_string()
